@@ -9,6 +9,17 @@ import (
 	"verif/sim/simrt"
 )
 
+// Deep is set in the thorough tier: longer call sequences, more clients, requests and management
+// operations per run (rule-set sizes stay as they are: the templates give each rule id its own fields).
+var Deep bool
+
+func deep(n, extra int) int {
+	if Deep {
+		return n + extra
+	}
+	return n
+}
+
 // NSites is the number of P-sites of the instrumented copy (set by the worker
 // from .vsites.json).
 var NSites int
